@@ -72,10 +72,14 @@ public class VfDriver {
         return sb.toString();
     }
 
+    static volatile long curCpuStart = 0;
+    static final java.lang.management.ThreadMXBean TB = java.lang.management.ManagementFactory.getThreadMXBean();
+
     static void work(int start, int myGen) {
         for (int i = start; i < methods.size(); i++) {
             if (gen != myGen) return;
             curStart = System.currentTimeMillis();
+            curCpuStart = TB.getCurrentThreadCpuTime();
             cur = i;
             String r = runMethod(i);
             if (gen != myGen) return;
@@ -109,6 +113,7 @@ public class VfDriver {
             final int start = next;
             final int myGen = ++gen;
             curStart = System.currentTimeMillis();
+            curCpuStart = 0;
             cur = start;
             Thread t = new Thread(() -> work(start, myGen));
             t.setDaemon(true);
@@ -116,7 +121,11 @@ public class VfDriver {
             boolean stuck = false;
             while (t.isAlive()) {
                 t.join(25);
-                if (t.isAlive() && System.currentTimeMillis() - curStart > deadlineMs) { stuck = true; break; }
+                if (!t.isAlive()) break;
+                // a call is stuck when it has burnt deadlineMs of CPU time (robust against a loaded machine), or 30x that in wall time
+                long cpu = TB.getThreadCpuTime(t.getId());
+                if (cpu >= 0 && (cpu - curCpuStart) / 1000000L > deadlineMs) { stuck = true; break; }
+                if (System.currentTimeMillis() - curStart > 30 * deadlineMs) { stuck = true; break; }
             }
             if (stuck) {
                 int s = cur;
@@ -397,7 +406,7 @@ def interp_expected(ctx, cases, step_cap=20000):
         ctx.maxi("interp_max_steps", prog.max_steps)
 
 
-def pipeline(ctx, cases, deadline_ms=1000, refs=None):
+def pipeline(ctx, cases, deadline_ms=700, refs=None):
     """bytecode -> DEX -> DAD -> javac (elimination rounds) -> one JVM; interpreter expectations. Mutates the cases.
     refs: optional list of reference cases (own Java rendering of the generator AST, package q) compiled and run in the same javac/JVM
     invocations to cross-check the interpreter; they carry .src and a (header, footer) frame in .meta["frame"]."""
@@ -530,7 +539,7 @@ def subject_mechanism(m, symptom, src, failing_subjects=()):
 STRUCT_GROUPS = [
     (r"nest:do-while/(while-top|while-bottom|do-while)", "loop-nested-in-do-while-misstructured"),
     (r"ret-in:(packed|sparse)-switch/if(-else)?", "switch-case-with-if-return-loses-break"),
-    (r"switch:(packed|sparse):empty-cases-empty-default@(top|nested)", "switch-empty-cases-printed-twice-duplicate-case-label"),
+    (r"switch:(packed|sparse):(empty-cases-empty-default|two-empty-cases(-no-default)?)@(top|nested)", "switch-empty-cases-printed-twice-duplicate-case-label"),
     (r"switch:(packed|sparse):fallthrough(-into-return)?@nested", "switch-fallthrough-wrong-follow-when-nested"),
     (r"switch:(packed|sparse):if-return-falls-into-next-case@(top|nested)", "switch-case-label-lost-after-if-return-fallthrough"),
     (r"decl:dead-stmt-uses-local", "declaration-left-in-one-branch-after-dead-use-removed"),
@@ -659,6 +668,13 @@ def crosscheck_interp(ctx, refs):
                 I.listing(k.units)[:30], mm[0], mm[1], mm[2], k.src))
 
 
+def symptom_explained(sym, entry):
+    """entry: {symptom: mechanism} of a single-subject feature. A wrong value can surface downstream as a lost/spurious exception."""
+    if sym in entry:
+        return True
+    return "wrong-value" in entry and sym in ("exception-lost", "exception-spurious")
+
+
 def phase_multi(ctx, arg):
     """one shard of a multi-feature pool with explain-away re-runs. arg: pool, n, salt, bad (table from the single phase), crosscheck"""
     pool, n, table = arg["pool"], arg["n"], arg["bad"]
@@ -676,7 +692,7 @@ def phase_multi(ctx, arg):
             ctx.sample({"pool": pool, "features": sorted(c.meta.features), "bytecode": I.listing(c.units), "decompiled": c.src, "tuples": len(c.tuples)})
     # explain-away: neutralise the known-bad features whose single-feature symptom matches, re-run, repeat
     pending = [{"orig": c, "cur": c, "symptom": s, "detail": d, "attr": []} for c, s, d in bad]
-    for rnd in range(5):
+    for rnd in range(7):
         if not pending:
             break
         nxt = []
@@ -684,20 +700,20 @@ def phase_multi(ctx, arg):
             m = p["cur"].meta
             sym = p["symptom"]
             # tier 1: instruction-level features whose single-subject symptom is the one observed; tier 2: structural features
-            t1 = {f for f in m.features if f in table and sym in table[f]}
+            t1 = {f for f in m.features if f in table and symptom_explained(sym, table[f])}
             t2 = {f for f in m.features if f in table and "*" in table[f] and (f != "throw:div-or-rem" or sym == "exception-lost")}
             m2 = done = None
             for tier, cands in ((1, t1), (2, t2)):
                 if not cands:
                     continue
                 try:
-                    m2, done = (G.neutralise if tier == 1 else G.neutralise_struct)(m, cands)
+                    m2, done = G.neutralise(m, cands, avoid=set(table)) if tier == 1 else G.neutralise_struct(m, cands)
                 except (G.TooBig, AssertionError):
                     m2 = None
                 if m2 is not None and done:
                     for f in sorted(done):
                         if f in table:
-                            p["attr"].append((f, sym, table[f].get(sym) or table[f]["*"]))
+                            p["attr"].append((f, sym, table[f].get(sym) or table[f].get("*") or table[f].get("wrong-value") or sorted(table[f].values())[0]))
                     break
                 m2 = None
             if m2 is None:
@@ -750,7 +766,7 @@ def finish_unattributed(ctx, p, pool):
 
 
 QUICK_POOLS = {"P0m": 40, "P2": 40, "P3": 40, "P4": 40, "P5": 40}
-THOROUGH_POOLS = {"P0m": 3000, "P2": 3000, "P3": 4000, "P4": 4000, "P5": 6000}
+THOROUGH_POOLS = {"P0m": 1500, "P2": 1500, "P3": 2000, "P4": 2000, "P5": 3000}
 SHARD_METHODS = 250
 
 
